@@ -6,6 +6,7 @@
 #include <iomanip>
 #include <sstream>
 #include <stdexcept>
+#include <cstdlib>
 
 #include "awkward/common.h"
 #include "awkward/Reducer.h"
@@ -959,8 +960,8 @@ namespace awkward {
           int64_t length;
           if ((range->step() > 0  &&  regular_stop - regular_start > 0)  ||
               (range->step() < 0  &&  regular_stop - regular_start < 0)) {
-            int64_t numer = abs(regular_start - regular_stop);
-            int64_t denom = abs(range->step());
+            int64_t numer = std::abs(regular_start - regular_stop);
+            int64_t denom = std::abs(range->step());
             int64_t d = numer / denom;
             int64_t m = numer % denom;
             length = d + (m != 0 ? 1 : 0);
